@@ -428,17 +428,26 @@ def run(doc, log):
                 continue
             kw = {"ux": None, "ps": None, "bx": None}
             kw[key] = lam
-            try:
-                got = um.view(**kw).evaluate()[0][1]
-            except ValueError:
-                log.count("material-curve-skipped:view-raised")
-                continue
+            import warnings
+
+            with warnings.catch_warnings(record=True) as caught:
+                warnings.simplefilter("always")
+                try:
+                    got = um.view(**kw).evaluate()[0][1]
+                except ValueError:
+                    log.count("material-curve-skipped:view-raised")
+                    continue
+            # felupe's documented flag for a non-physical root of the lateral-stretch search (NaN at
+            # those points, with this warning): no answer there, not a wrong one
+            flagged = any("det(F) <= 0" in str(w_.message) for w_ in caught)
             got = np.asarray(got, dtype=float)
             ref = np.asarray(ref)
             fin = np.isfinite(got)
             if not fin.all():
                 log.count("material-curve-nan-points", int((~fin).sum()))
-                if np.all(np.isfinite(ref)) and (~fin).sum() > 0.25 * len(got):
+                if flagged:
+                    log.count("material-curve-points-flagged-non-physical-root", int((~fin).sum()))
+                elif np.all(np.isfinite(ref)) and (~fin).sum() > 0.25 * len(got):
                     raise Violation(PROP, "material-curve", f"umat.view() {name} curve is NaN at {int((~fin).sum())} of {len(got)} stretches in [{lo}, {hi}] where the analytic solution exists", site=f"view.{name}.nan")
             e = float(np.abs(got[fin] - ref[fin]).max()) if fin.any() else 0.0
             # felupe solves the lateral stretch with scipy.optimize.root at its default tolerance;
